@@ -23,7 +23,9 @@
 //
 // History lines: inv/ret per call ("inv 3 hold g b s 2", "ret 3 hold", "ret 4 tryhold false",
 // "ret 5 mhold", "cbout 5" logged at the end of the body of an mhold call, "inv 6 wait ge 2",
-// "ret 6 wait nil|err|canceled|badarg"), "env cancel 6", "probe 3 0 open|closed", "quiesce ...".
+// "ret 6 wait nil|err|canceled|badarg"), "env cancel 6", "probe 3 0 open|closed", "quiesce ...",
+// and, logged from inside every callback body and every predicate evaluation (they run under the
+// mutex of the Broadcast), "cbin t" at its start and "cbend t" at its end.
 package broadcast
 
 import (
@@ -51,6 +53,7 @@ type call struct {
 	cancel context.CancelFunc
 	unpark chan struct{}
 	once   sync.Once
+	widen  time.Duration // extra time spent inside the body / predicate (widens the critical section)
 
 	mu      sync.Mutex
 	handles []<-chan struct{}
@@ -126,12 +129,18 @@ func exec(script []string, opt comp.Options) comp.Result {
 					}
 				}
 			}()
+			// the body is harness code running under the mutex of the Broadcast: its start and end
+			// marks let the exclusion clause ("bodies never overlap") be checked on the history
+			log.Add("cbin %d", c.id)
 			if c.unpark != nil {
 				select {
 				case <-c.unpark:
 				case <-time.After(2 * time.Second):
 					tag("park-timeout")
 				}
+			}
+			if c.widen > 0 {
+				time.Sleep(c.widen)
 			}
 			var hs []<-chan struct{}
 			for _, o := range ops {
@@ -147,6 +156,7 @@ func exec(script []string, opt comp.Options) comp.Result {
 			c.mu.Lock()
 			c.handles = hs
 			c.mu.Unlock()
+			log.Add("cbend %d", c.id)
 			if done != nil {
 				done()
 			}
@@ -175,6 +185,13 @@ func exec(script []string, opt comp.Options) comp.Result {
 		for _, c := range calls {
 			c.doUnpark()
 		}
+	}
+	// every sixth body / predicate evaluation dwells a little under the mutex
+	widen := func() time.Duration {
+		if rng.Intn(6) == 0 {
+			return time.Duration(20+rng.Intn(180)) * time.Microsecond
+		}
+		return 0
 	}
 	heldAtPreblock := false
 	// keep the number of simultaneously active calls small (the model check explores every
@@ -209,7 +226,7 @@ func exec(script []string, opt comp.Options) comp.Result {
 			if !validOps(ops) {
 				continue
 			}
-			c := &call{cancel: func() {}}
+			c := &call{cancel: func() {}, widen: widen()}
 			if park {
 				c.unpark = make(chan struct{})
 				tag("parked-body")
@@ -241,7 +258,7 @@ func exec(script []string, opt comp.Options) comp.Result {
 			if !validOps(ops) {
 				continue
 			}
-			c := &call{cancel: func() {}}
+			c := &call{cancel: func() {}, widen: widen()}
 			c.id = log.Inv("tryhold%s", progString(ops))
 			calls = append(calls, c)
 			safely(c.id, "tryhold", func() {
@@ -258,7 +275,7 @@ func exec(script []string, opt comp.Options) comp.Result {
 			if !validOps(ops) {
 				continue
 			}
-			c := &call{cancel: func() {}}
+			c := &call{cancel: func() {}, widen: widen()}
 			c.id = log.Inv("mhold%s", progString(ops))
 			calls = append(calls, c)
 			wg.Add(1) // released at the end of the body, which may run in a goroutine of the library
@@ -282,7 +299,7 @@ func exec(script []string, opt comp.Options) comp.Result {
 			if len(f) < 2 {
 				continue
 			}
-			c := &call{isWait: true}
+			c := &call{isWait: true, widen: widen()}
 			ctx, cancel := context.WithCancel(context.Background())
 			c.cancel = cancel
 			var cb func(func(), func() <-chan struct{}) (bool, error)
@@ -301,6 +318,11 @@ func exec(script []string, opt comp.Options) comp.Result {
 				}
 				pre = len(f) > 3 && f[3] == "pre"
 				cb = func(func(), func() <-chan struct{}) (bool, error) {
+					log.Add("cbin %d", c.id)
+					defer log.Add("cbend %d", c.id)
+					if c.widen > 0 {
+						time.Sleep(c.widen)
+					}
 					switch kind {
 					case "eq":
 						return x == v, nil
@@ -670,6 +692,10 @@ func init() {
 			{"wait ge 1", "wait eq 2", "wait err 2", "settle", "hold s2", "quiesce", "hold b", "quiesce"},
 			// a body that keeps the mutex: TryHoldLock fails, HoldLockMaybeAsync goes async, Wait queues
 			{"hold p s1 b g", "tryhold s3 b", "mhold g s2 b", "wait ge 2", "hold a g", "unpark 0", "settle", "probe 0 0", "probe 2 0", "probe 4 0", "quiesce"},
+			// bodies never overlap: while a body dwells under the mutex, HoldLockMaybeAsync must take its slow
+			// path and run its body only afterwards; TryHoldLock must fail; HoldLock and Wait must queue
+			{"hold p g s1 b", "mhold s2 b g", "mhold b", "tryhold s3", "pause", "pause", "unpark 0", "settle", "probe 0 0", "probe 1 0", "quiesce"},
+			{"wait ge 5", "hold p s1 b", "mhold s5 b", "hold a g", "pause", "unpark 1", "quiesce"},
 			// waiter held before it takes the mutex for the first time
 			{"gate hold-enter 1", "wait eq 0 pre", "hit 0", "hold s1 b", "open 0", "quiesce"},
 			// waiter held right after its critical section (hold-exit comes before preblock)
